@@ -11,45 +11,21 @@ here-document state machine).
 Where brush departs from the reference the full statement is refuted on a witness (`_cex`) and the
 theorem is proved under a decidable guard (`_partial` in the doc comment):
 
-* `InGuard`: not the move form `N>&M-`, and under noclobber not `&>word` / `>&word`
-  (`setup_redirect_output_and_error_to` truncates without looking at noclobber);
-* `exec` persists exactly its own redirections only when no enclosing command is redirected.
+* `exec` persists exactly its own redirections only when no enclosing command is redirected;
+* an external child inherits the process's descriptor 0, 1 or 2 where the tables say "closed"
+  (`child_closed_std_cex`).
 
-What an external child really receives for descriptors 0–2 (`childFd`, which mirrors
-`Stdio::inherit()` for the three `Std*` variants) is part of the model and of the correspondence
-run, and is shown to differ from the table (`child_std_slots_cex`).
+Every redirection form — including the move forms `N>&M-` and `&>word` under noclobber — now refines
+the flat table without a guard.
 -/
 namespace BrushVerif.C10
 open BrushVerif.Wire BrushVerif.Fd
 open BrushVerif.FdFlat (Flat setF openFor outErr)
 
-/-- redirections on which brush's `setup_redirect` is claimed to do what POSIX/bash do -/
-def InGuard (nc : Bool) : Redir → Prop
-  | .dup _ _ (.fd _) dash => dash = false
-  | .dup _ _ (.word _) _ => nc = false
-  | .outErr _ append => nc = false ∨ append = true
-  | _ => True
-
-instance (nc : Bool) (r : Redir) : Decidable (InGuard nc r) := by
-  cases r with
-  | file => exact isTrue trivial
-  | dup n i src d =>
-    cases src with
-    | none => exact isTrue trivial
-    | fd m => exact inferInstanceAs (Decidable (d = false))
-    | word p => exact inferInstanceAs (Decidable (nc = false))
-  | outErr p a => exact inferInstanceAs (Decidable (nc = false ∨ a = true))
-  | here => exact isTrue trivial
-
-/-- full statement: for every redirection the overlay, read through `try_fd`, is what the flat table becomes -/
-def overlay_refines_flat_full : Prop :=
-  ∀ (nc : Bool) (P O : Table) (s : Sys) (r : Redir),
-    (applyRedirect nc P O s r).map (fun x => (flatten P x.1, x.2)) = FdFlat.apply nc (flatten P O) s r
-
 /-- `setup_redirect` on (persistent table, overlay) refines `open`/`dup2`/`close` on the flat table:
 same resulting descriptors, same file system and open file descriptions, failure exactly when the
-reference fails (`_partial`: guard `InGuard`) -/
-theorem overlay_refines_flat (nc : Bool) (P O : Table) (s : Sys) (r : Redir) (hg : InGuard nc r) :
+reference fails — for every redirection form -/
+theorem overlay_refines_flat (nc : Bool) (P O : Table) (s : Sys) (r : Redir) :
     (applyRedirect nc P O s r).map (fun x => (flatten P x.1, x.2)) = FdFlat.apply nc (flatten P O) s r := by
   cases r with
   | file n k p =>
@@ -62,55 +38,42 @@ theorem overlay_refines_flat (nc : Bool) (P O : Table) (s : Sys) (r : Redir) (hg
     | none =>
       cases dash <;> simp [applyRedirect, FdFlat.apply, flatten_setT_notPresent]
     | fd m =>
-      have hd : dash = false := hg
-      subst hd
       simp only [applyRedirect, FdFlat.apply, flatten_tryFd]
       cases tryFd P O m with
       | none => rfl
-      | some h => simp [flatten_setT_open]
+      | some h =>
+        by_cases hc : dash = true ∧ m ≠ n.getD (if input then 0 else 1)
+        · simp [hc, flatten_setT_open, flatten_setT_notPresent]
+        · simp [hc, flatten_setT_open]
     | word p =>
-      have hn : nc = false := hg
-      subst hn
       simp only [applyRedirect, FdFlat.apply]
       by_cases hc : n.getD (if input then 0 else 1) = 1 ∧ dash = false
-      · obtain ⟨h1, h2⟩ := hc
-        subst h2
-        simp only [h1, and_self, ↓reduceIte, Option.map_map]
-        have := outErrTo_eq P O s p false
-        simpa [Function.comp_def] using this
+      · simp only [hc, and_self, ↓reduceIte]
+        exact outErrTo_eq nc P O s p false
       · simp [hc]
   | outErr p a =>
     simp only [applyRedirect, FdFlat.apply]
-    rcases hg with hn | ha
-    · subst hn; exact outErrTo_eq P O s p a
-    · subst ha; exact outErrTo_append_eq nc P O s p
+    exact outErrTo_eq nc P O s p a
   | here n c =>
     simp [applyRedirect, FdFlat.apply, Sys.push, flatten_setT_open, H.ofd]
 
-/-- the move form `3>&1-`: brush closes the *target* 3 and leaves 1 open; POSIX makes 3 a copy and closes 1 -/
-theorem overlay_refines_flat_full_cex : ¬ overlay_refines_flat_full := by
-  intro h
-  have := h false initP emptyT initSys (.dup (some 3) false (.fd 1) true)
-  have h3 : ((applyRedirect false initP emptyT initSys (.dup (some 3) false (.fd 1) true)).map
-        (fun x => (flatten initP x.1, x.2))).map (fun x => x.1 1)
-      = (FdFlat.apply false (flatten initP emptyT) initSys (.dup (some 3) false (.fd 1) true)).map (fun x => x.1 1) := by
-    rw [this]
-  simp [applyRedirect, FdFlat.apply, tryFd, emptyT, initP, Table.tryFd, flatten, setT, setF, H.ofd] at h3
-
-example : InGuard false (.dup (some 2) false (.fd 1) false) ∧ InGuard true (.file none .write 3) := by
-  constructor <;> simp [InGuard]
+/-- the move form: `3>&1-` makes 3 a copy of 1 and closes 1 -/
+example :
+    (applyRedirect false initP emptyT initSys (.dup (some 3) false (.fd 1) true)).map
+      (fun x => (flatten initP x.1 3, flatten initP x.1 1)) = some (some 1, none) := by
+  simp [applyRedirect, tryFd, emptyT, initP, Table.tryFd, flatten, setT, H.ofd]
 
 /-- **left to right**: a whole redirection list, applied by brush's loop to its overlay, gives the
 descriptors, files and success/failure that applying `open`/`dup2`/`close` one after the other to a
 flat table gives — including where the loop stops at the first failing redirection -/
-theorem redirects_left_to_right (nc : Bool) (P : Table) (rs : List Redir) (hg : ∀ r ∈ rs, InGuard nc r)
+theorem redirects_left_to_right (nc : Bool) (P : Table) (rs : List Redir)
     (O : Table) (s : Sys) :
     (fun x : Table × Sys × Bool => (flatten P x.1, x.2.1, x.2.2)) (applyAll nc P O s rs)
       = FdFlat.applyAll nc (flatten P O) s rs := by
   induction rs generalizing O s with
   | nil => rfl
   | cons r rs ih =>
-    have h1 := overlay_refines_flat nc P O s r (hg r (by simp))
+    have h1 := overlay_refines_flat nc P O s r
     simp only [Fd.applyAll, FdFlat.applyAll]
     cases hr : applyRedirect nc P O s r with
     | none =>
@@ -121,7 +84,7 @@ theorem redirects_left_to_right (nc : Bool) (P : Table) (rs : List Redir) (hg : 
       rw [hr] at h1
       simp only [Option.map_some] at h1
       rw [← h1]
-      exact ih (fun r' hr' => hg r' (by simp [hr'])) x.1 x.2
+      exact ih x.1 x.2
 
 /-- order matters: `2>&1 >a` leaves descriptor 2 on the old standard output, `>a 2>&1` puts it on the file -/
 example :
@@ -134,12 +97,9 @@ example :
 
 /-! ## noclobber -/
 
-/-- the redirections that may empty an existing regular file even under noclobber: `>|` by design;
-`&>word`, `>&word` because brush does not consult the option there -/
+/-- the only redirection that may empty an existing regular file under noclobber: `>|` -/
 def Clobbering : Redir → Bool
   | .file _ .clobber _ => true
-  | .outErr _ false => true
-  | .dup _ _ (.word _) _ => true
   | _ => false
 
 /-- under noclobber no other redirection changes an existing file -/
@@ -158,23 +118,30 @@ theorem noclobber_never_truncates_existing_regular (P O O' : Table) (s s' : Sys)
   | dup fd input src dash =>
     cases src with
     | none =>
-      cases dash <;> simp [applyRedirect] at h <;> (obtain ⟨_, rfl⟩ := h) <;> exact hreg
+      simp only [applyRedirect, Option.some.injEq, Prod.mk.injEq] at h
+      rw [← h.2]; exact hreg
     | fd m =>
-      simp only [applyRedirect] at h
-      cases hm : tryFd P O m with
-      | none => simp [hm] at h
-      | some hh =>
-        cases dash <;> simp [hm] at h <;> (obtain ⟨_, rfl⟩ := h) <;> exact hreg
-    | word q => simp [Clobbering] at hnot
-  | outErr q a =>
-    cases a with
-    | false => simp [Clobbering] at hnot
-    | true =>
-      simp only [applyRedirect, outErrTo, Option.map_eq_some_iff] at h
-      obtain ⟨⟨id, s1⟩, h1, h2⟩ := h
+      simp only [applyRedirect, Option.map_eq_some_iff] at h
+      obtain ⟨hh, _, h2⟩ := h
       simp only [Prod.mk.injEq] at h2
-      obtain ⟨_, rfl⟩ := h2
-      exact sysOpen_preserves s s1 q p _ id n hreg (Or.inl rfl) h1
+      rw [← h2.2]; exact hreg
+    | word q =>
+      by_cases hc : fd.getD (if input then 0 else 1) = 1 ∧ dash = false
+      · simp only [applyRedirect, hc, and_self, ↓reduceIte, outErrTo, Option.map_eq_some_iff] at h
+        obtain ⟨⟨id, s1⟩, h1, h2⟩ := h
+        simp only [Prod.mk.injEq] at h2
+        obtain ⟨_, rfl⟩ := h2
+        refine sysOpen_preserves s s1 q p _ id n hreg ?_ h1
+        simp [outErrFlags]; split <;> simp
+      · simp [applyRedirect, hc] at h
+  | outErr q a =>
+    simp only [applyRedirect, outErrTo, Option.map_eq_some_iff] at h
+    obtain ⟨⟨id, s1⟩, h1, h2⟩ := h
+    simp only [Prod.mk.injEq] at h2
+    obtain ⟨_, rfl⟩ := h2
+    refine sysOpen_preserves s s1 q p _ id n hreg ?_ h1
+    cases a <;> simp [outErrFlags]
+    split <;> simp
   | here fd c =>
     simp [applyRedirect, Sys.push] at h
     obtain ⟨_, rfl⟩ := h
@@ -200,11 +167,12 @@ theorem noclobber_list_keeps_existing (P : Table) (rs : List Redir) (hnot : ∀ 
       exact ih (fun r' hr' => hnot r' (by simp [hr'])) O' s'
         (noclobber_never_truncates_existing_regular P O O' s s' r p n hreg (hnot r (by simp)) hr)
 
-/-- full statement fails: `&>ex` under noclobber empties the existing file `ex` -/
-theorem noclobber_full_cex :
-    initSys.fs 3 = some (.reg "old\n".toList false) ∧
-    (applyRedirect true initP emptyT initSys (.outErr 3 false)).map (fun x => x.2.fs 3) = some (some (.reg [] false)) := by
-  simp [applyRedirect, outErrTo, sysOpen, initSys, initFs, Sys.push, setFs, mkOfd]
+/-- `&>word` and `>&word` obey noclobber too: on an existing regular file they fail -/
+theorem noclobber_out_and_err_refuses_existing_regular (P O : Table) (s : Sys) (p : Path) (d : Str) (t : Bool)
+    (hreg : s.fs p = some (.reg d t)) :
+    applyRedirect true P O s (.outErr p false) = none ∧
+    applyRedirect true P O s (.dup none false (.word p) false) = none := by
+  simp [applyRedirect, outErrTo, outErrFlags, isReg, hreg, sysOpen]
 
 example : applyRedirect true initP emptyT initSys (.file none .write 3) = none :=
   noclobber_write_refuses_existing_regular _ _ _ _ _ _ _ rfl
@@ -301,20 +269,19 @@ example : noExec (.group (.cons (.probe 1 [.file none .write 0]) (.cons (.sub (.
 
 /-- full statement: `exec rs` makes exactly `rs` permanent, in every context -/
 def exec_persists_exactly_its_redirects_full : Prop :=
-  ∀ (nc : Bool) (P O : Table) (s : Sys) (rs : List Redir), (∀ r ∈ rs, InGuard nc r) →
+  ∀ (nc : Bool) (P O : Table) (s : Sys) (rs : List Redir),
     (FdFlat.applyAll nc (flatten P emptyT) s rs).2.2 = true →
     flatten (run nc (.exec rs) P O s).P emptyT = (FdFlat.applyAll nc (flatten P emptyT) s rs).1
 
 /-- **only `exec` redirections persist, and exactly those**: at top level (no enclosing redirection)
 the shell's table after `exec rs` is the old table with `rs` applied left to right as on a flat POSIX
 table; if a redirection fails the table is untouched (`_partial`: guard `O = emptyT`) -/
-theorem exec_persists_exactly_its_redirects (nc : Bool) (P : Table) (s : Sys) (rs : List Redir)
-    (hg : ∀ r ∈ rs, InGuard nc r) :
+theorem exec_persists_exactly_its_redirects (nc : Bool) (P : Table) (s : Sys) (rs : List Redir) :
     let r := run nc (.exec rs) P emptyT s
     let f := FdFlat.applyAll nc (flatten P emptyT) s rs
     (f.2.2 = true → flatten r.P emptyT = f.1 ∧ r.s.fs = f.2.1.fs ∧ r.s.ofds = f.2.1.ofds) ∧
     (f.2.2 = false → r.P = P) := by
-  have key := redirects_left_to_right nc P rs hg emptyT s
+  have key := redirects_left_to_right nc P rs emptyT s
   simp only [run]
   have hne : noteExec emptyT s = s := by simp [noteExec, emptyT]
   rw [hne]
@@ -331,47 +298,57 @@ theorem exec_persists_exactly_its_redirects (nc : Bool) (P : Table) (s : Sys) (r
 theorem exec_persists_exactly_its_redirects_full_cex : ¬ exec_persists_exactly_its_redirects_full := by
   intro h
   have h1 := h false initP (setT emptyT 4 (.open (.file 7))) initSys [.file (some 3) .write 0]
-    (by simp [InGuard]) (by simp [FdFlat.applyAll, FdFlat.apply, openFor, sysOpen, initSys, initFs, Sys.push])
+    (by simp [FdFlat.applyAll, FdFlat.apply, openFor, sysOpen, initSys, initFs, Sys.push])
   have h4 := congrFun h1 4
   simp [run, Fd.applyAll, applyRedirect, flagsFor, isReg, sysOpen, initSys, initFs, Sys.push, noteExec, fds10, setT, emptyT,
     Sys.note, flatten, merged, tryFd, initP, Table.tryFd, H.ofd, FdFlat.applyAll, FdFlat.apply, openFor, setF, mkOfd] at h4
 
 /-! ## what an external command receives -/
 
-/-- the child's descriptors 0–2 are not always what the tables say: after `2>&1` (standard output being
-the process's own) the child still gets the process's standard error -/
-theorem child_std_slots_cex :
-    let O := (applyAll false initP emptyT initSys [.dup (some 2) false (.fd 1) false]).1
-    flatten initP O 2 = some 1 ∧ childFd initP O 2 = some 2 := by
-  simp [applyAll, applyRedirect, tryFd, emptyT, initP, Table.tryFd, flatten, setT, childFd, H.ofd]
+/-- an external command receives, at every descriptor the tables have open, exactly the open file
+description the tables name — also for 0, 1, 2 after `2>&1`, `1>&2`, `0<&3` … -/
+theorem child_gets_table_entry (P O : Table) (fd : Fd) (h : H) (hopen : tryFd P O fd = some h) :
+    childFd P O fd = flatten P O fd := by
+  simp [childFd, flatten, hopen]
 
-/-- for descriptors 3 and up, and for 0–2 redirected to files, pipes or here-documents, the child gets
-what the tables say -/
-theorem child_gets_table_entry (P O : Table) (fd : Fd)
-    (h : 3 ≤ fd ∨ ∃ id, tryFd P O fd = some (.file id)) : childFd P O fd = flatten P O fd := by
-  rcases h with h | ⟨id, h⟩
-  · have : ¬ fd < 3 := Nat.not_lt.mpr h
-    simp [childFd, this, flatten]
-  · simp only [childFd, flatten, h]
-    split <;> simp [H.ofd]
+/-- descriptors 3 and up that the tables have closed are closed in the child -/
+theorem child_closed_high (P O : Table) (fd : Fd) (h3 : 3 ≤ fd) (hc : tryFd P O fd = none) : childFd P O fd = none := by
+  have : ¬ fd < 3 := Nat.not_lt.mpr h3
+  simp [childFd, hc, this]
+
+/-- … but a closed descriptor 0, 1 or 2 is inherited from the process: after `<&-` the child still has a standard input -/
+theorem child_closed_std_cex :
+    let O := (applyAll false initP emptyT initSys [.dup none true .none true]).1
+    flatten initP O 0 = none ∧ childFd initP O 0 = some 0 := by
+  simp [applyAll, applyRedirect, tryFd, emptyT, initP, Table.tryFd, flatten, setT, childFd]
+
+example : childFd initP (applyAll false initP emptyT initSys [.dup (some 2) false (.fd 1) false]).1 2 = some 1 := by
+  simp [applyAll, applyRedirect, tryFd, emptyT, initP, Table.tryFd, setT, childFd, H.ofd]
 
 /-! ## here-documents -/
 
 open BrushVerif.HereDoc in
 /-- **byte-exact bodies**: for every list of lines (arbitrary characters except newline) none of which
-equals the delimiter once leading tabs are removed under `<<-`, followed by the delimiter line, the
-scanner returns exactly those lines (tab-stripped under `<<-`, untouched otherwise) and leaves exactly
-the text after the delimiter line.  Lines that merely contain the delimiter, start or end with it, or
-differ from it by trailing blanks do not end the document. -/
-theorem heredoc_body_exact (removeTabs : Bool) (tag : Str) (lines : List Str) (rest : Str)
+equals the delimiter once leading tabs are removed under `<<-`, and — when the delimiter is unquoted
+(`expands`) — none of which ends in an unescaped backslash (a line continuation), followed by the
+delimiter line, the scanner returns exactly those lines (tab-stripped under `<<-`, untouched
+otherwise) and leaves exactly the text after the delimiter line.  Lines that merely contain the
+delimiter, start or end with it, or differ from it by trailing blanks do not end the document. -/
+theorem heredoc_body_exact (removeTabs expands : Bool) (tag : Str) (lines : List Str) (rest : Str)
     (htag : '\n' ∉ tag) (htagT : removeTabs = true → tag.head? ≠ some '\t')
-    (hl : ∀ l ∈ lines, '\n' ∉ l ∧ stripTabs removeTabs l ≠ tag) (tabs : Nat) :
-    scan removeTabs tag [] (joinLines lines ++ (List.replicate (if removeTabs then tabs else 0) '\t' ++ tag ++ ['\n']) ++ rest)
+    (hl : ∀ l ∈ lines, '\n' ∉ l ∧ stripTabs removeTabs l ≠ tag)
+    (hcont : expands = true → ∀ l ∈ lines, trailingBackslashes (stripTabs removeTabs l) % 2 = 0) (tabs : Nat) :
+    scan removeTabs expands tag [] (joinLines lines ++ (List.replicate (if removeTabs then tabs else 0) '\t' ++ tag ++ ['\n']) ++ rest)
       = some (joinLines (lines.map (stripTabs removeTabs)), rest) :=
-  scan_lines removeTabs tag lines rest htag htagT hl tabs
+  scan_lines removeTabs expands tag lines rest htag htagT hl hcont tabs
 
 open BrushVerif.HereDoc in
-example : scan true "EOF".toList [] "\tEOFx\n EOF\n\t\tEOF\nrest".toList = some ("EOFx\n EOF\n".toList, "rest".toList) := by
+example : scan true true "EOF".toList [] "\tEOFx\n EOF\n\t\tEOF\nrest".toList = some ("EOFx\n EOF\n".toList, "rest".toList) := by
+  decide
+
+open BrushVerif.HereDoc in
+/-- a continued line swallows a following delimiter-looking line (unquoted delimiter), as in bash -/
+example : scan false true "EOF".toList [] "foo\\\nEOF\nEOF\nrest".toList = some ("foo\\\nEOF\n".toList, "rest".toList) := by
   decide
 
 open BrushVerif.HereDoc in
